@@ -304,7 +304,8 @@ fn cmd_check(args: &[String]) -> i32 {
                 let rr = run_requests(vec![json!({"check": id, "spec": spec, "idx": 0})], 1, timeout * 2).remove(0);
                 // a hang shows either as the wall-clock guard or as the step budget, whichever is hit first on this machine
                 let hung = (class == "did-not-terminate" || class == "step-budget-exhausted") && (rr.outcome == "timeout" || rr.outcome.starts_with("abort"));
-                if !hung && !rr.violations.iter().any(|v| v.class == class) {
+                let hang = |c: &str| c == "did-not-terminate" || c == "step-budget-exhausted";
+                if !hung && !rr.violations.iter().any(|v| v.class == class || (hang(&class) && hang(&v.class))) {
                     println!("STALE-FINDING: property={} {} no longer reproduces from {} (the entry can be retired)", id, f.id, f.replay);
                 }
             }
@@ -439,7 +440,8 @@ fn cmd_replay(id: &str, path: &str, timeout: Duration) -> i32 {
     let r = run_requests(vec![req], 1, timeout * 2).remove(0);
     println!("replay outcome: {}", r.outcome);
     let timed_out = r.outcome == "timeout" || r.outcome.starts_with("abort");
-    let hit = r.violations.iter().find(|v| class.is_empty() || v.class == class);
+    let hang = |c: &str| c == "did-not-terminate" || c == "step-budget-exhausted";
+    let hit = r.violations.iter().find(|v| class.is_empty() || v.class == class || (hang(&class) && hang(&v.class)));
     if let Some(v) = hit {
         println!("VIOLATION property={} replay={}", id, path);
         println!("  class={} :: {}", v.class, v.detail);
